@@ -859,6 +859,93 @@ def eventauth_membershipAllower_membershipFailed : List String := [
   "return errorf(\"%q is not allowed to change the membership of %q from %q to %q as \"+format, append([]interface{}{m.senderID, m.targetID, m.oldMember.Membership, m.newMember.Membership}, args...)...)"
 ]
 
-def functions : List String := ["eventauth.go:AuthEvents.AddEvent", "eventauth.go:AuthEvents.Clear", "eventauth.go:AuthEvents.Create", "eventauth.go:AuthEvents.JoinRules", "eventauth.go:AuthEvents.Member", "eventauth.go:AuthEvents.PowerLevels", "eventauth.go:AuthEvents.ThirdPartyInvite", "eventauth.go:AuthEvents.Valid", "eventauth.go:NotAllowed.Error", "eventauth.go:StateNeeded.AuthEventReferences", "eventauth.go:StateNeeded.Tuples", "eventauth.go:.Allowed", "eventauth.go:.NewAuthEvents", "eventauth.go:.StateNeededForAuth", "eventauth.go:.StateNeededForProtoEvent", "eventauth.go:.accumulateStateNeeded", "eventauth.go:.allowRestrictedJoins", "eventauth.go:.checkEventLevels", "eventauth.go:.checkKnocking", "eventauth.go:.checkPowerLevelEventV1", "eventauth.go:.checkPowerLevelEventV2", "eventauth.go:.checkPowerLevelEventV3", "eventauth.go:.checkUserLevels", "eventauth.go:.disallowKnocking", "eventauth.go:.disallowRestrictedJoins", "eventauth.go:.errorf", "eventauth.go:.newAllowerContext", "eventauth.go:.thirdPartyInviteToken", "eventauth.go:allowerContext.aliasEventAllowed", "eventauth.go:allowerContext.allowed", "eventauth.go:allowerContext.createEventAllowed", "eventauth.go:allowerContext.defaultEventAllowed", "eventauth.go:allowerContext.memberEventAllowed", "eventauth.go:allowerContext.newEventAllower", "eventauth.go:allowerContext.newMembershipAllower", "eventauth.go:allowerContext.powerLevelsEventAllowed", "eventauth.go:allowerContext.redactEventAllowed", "eventauth.go:allowerContext.resetCreate", "eventauth.go:allowerContext.update", "eventauth.go:allowerContext.userPowerLevel", "eventauth.go:eventAllower.commonChecks", "eventauth.go:membershipAllower.membershipAllowed", "eventauth.go:membershipAllower.membershipAllowedFromThirdPartyInvite", "eventauth.go:membershipAllower.membershipAllowedOther", "eventauth.go:membershipAllower.membershipAllowedSelf", "eventauth.go:membershipAllower.membershipAllowedSelfForRestrictedJoin", "eventauth.go:membershipAllower.membershipFailed"]
+def stateresolution_stateResolver_resolveAndAddAuthBlocks : List String := [
+  "func func(blocks [][]PDU, userIDForSender spec.UserIDForSender)",
+  "start := len(r.result)",
+  "for _, block := range blocks {",
+  "if len(block) == 0 {",
+  "continue",
+  "}",
+  "if event := r.resolveAuthBlock(block, userIDForSender); event != nil {",
+  "r.result = append(r.result, event)",
+  "}",
+  "}",
+  "for i := start; i < len(r.result); i++ {",
+  "r.addAuthEvent(r.result[i])",
+  "}"
+]
+
+def stateresolution_stateResolver_resolveAuthBlock : List String := [
+  "func func(events []PDU, userIDForSender spec.UserIDForSender) PDU",
+  "block := sortConflictedEventsByDepthAndSHA1(events)",
+  "result := block[0].event",
+  "previous := r.authEventAt(result.Type(), *result.StateKey())",
+  "r.addAuthEvent(result)",
+  "for i := 1; i < len(block); i++ {",
+  "event := block[i].event",
+  "if Allowed(event, r, userIDForSender) == nil {",
+  "result = event",
+  "r.addAuthEvent(result)",
+  "} else {",
+  "break",
+  "}",
+  "}",
+  "r.removeAuthEvent(result.Type(), *result.StateKey())",
+  "if previous != nil {",
+  "r.addAuthEvent(previous)",
+  "}",
+  "return result"
+]
+
+def stateresolutionv2_stateResolverV2_authAndApplyEvents : List String := [
+  "func func(events ...PDU)",
+  "addFromAuthEventsIfNotRejected := func(event PDU, eventType, stateKey string) { for _, authEventID := range event.AuthEventIDs() { rejected, ok := r.isRejectedCache[authEventID] if !ok { rejected = r.isRejectedFn(authEventID) r.isRejectedCache[authEventID] = rejected } if rejected { continue } authEv, ok := r.authEventMap[authEventID] if !ok { continue } if authEv.Type() != eventType || !authEv.StateKeyEquals(stateKey) { continue } _ = r.authProvider.AddEvent(authEv) } }",
+  "for _, event := range events {",
+  "r.authProvider.Clear()",
+  "needed := StateNeededForAuth([]PDU{event})",
+  "if resolved := r.resolvedCreate; needed.Create {",
+  "if resolved != nil {",
+  "_ = r.authProvider.AddEvent(resolved)",
+  "} else {",
+  "addFromAuthEventsIfNotRejected(event, spec.MRoomCreate, \"\")",
+  "}",
+  "}",
+  "if resolved := r.resolvedJoinRules; needed.JoinRules {",
+  "if resolved != nil {",
+  "_ = r.authProvider.AddEvent(resolved)",
+  "} else {",
+  "addFromAuthEventsIfNotRejected(event, spec.MRoomJoinRules, \"\")",
+  "}",
+  "}",
+  "if resolved := r.resolvedPowerLevels; needed.PowerLevels {",
+  "if resolved != nil {",
+  "_ = r.authProvider.AddEvent(resolved)",
+  "} else {",
+  "addFromAuthEventsIfNotRejected(event, spec.MRoomPowerLevels, \"\")",
+  "}",
+  "}",
+  "for _, needed := range needed.Member {",
+  "if resolved := r.resolvedMembers[spec.SenderID(needed)]; resolved != nil {",
+  "_ = r.authProvider.AddEvent(resolved)",
+  "} else {",
+  "addFromAuthEventsIfNotRejected(event, spec.MRoomMember, needed)",
+  "}",
+  "}",
+  "for _, needed := range needed.ThirdPartyInvite {",
+  "if resolved := r.resolvedThirdPartyInvites[needed]; resolved != nil {",
+  "_ = r.authProvider.AddEvent(resolved)",
+  "} else {",
+  "addFromAuthEventsIfNotRejected(event, spec.MRoomThirdPartyInvite, needed)",
+  "}",
+  "}",
+  "r.allower.update(r.authProvider)",
+  "if err := r.allower.allowed(event); err != nil {",
+  "continue",
+  "}",
+  "r.applyEvents(event)",
+  "}"
+]
+
+def functions : List String := ["eventauth.go:AuthEvents.AddEvent", "eventauth.go:AuthEvents.Clear", "eventauth.go:AuthEvents.Create", "eventauth.go:AuthEvents.JoinRules", "eventauth.go:AuthEvents.Member", "eventauth.go:AuthEvents.PowerLevels", "eventauth.go:AuthEvents.ThirdPartyInvite", "eventauth.go:AuthEvents.Valid", "eventauth.go:NotAllowed.Error", "eventauth.go:StateNeeded.AuthEventReferences", "eventauth.go:StateNeeded.Tuples", "eventauth.go:.Allowed", "eventauth.go:.NewAuthEvents", "eventauth.go:.StateNeededForAuth", "eventauth.go:.StateNeededForProtoEvent", "eventauth.go:.accumulateStateNeeded", "eventauth.go:.allowRestrictedJoins", "eventauth.go:.checkEventLevels", "eventauth.go:.checkKnocking", "eventauth.go:.checkPowerLevelEventV1", "eventauth.go:.checkPowerLevelEventV2", "eventauth.go:.checkPowerLevelEventV3", "eventauth.go:.checkUserLevels", "eventauth.go:.disallowKnocking", "eventauth.go:.disallowRestrictedJoins", "eventauth.go:.errorf", "eventauth.go:.newAllowerContext", "eventauth.go:.thirdPartyInviteToken", "eventauth.go:allowerContext.aliasEventAllowed", "eventauth.go:allowerContext.allowed", "eventauth.go:allowerContext.createEventAllowed", "eventauth.go:allowerContext.defaultEventAllowed", "eventauth.go:allowerContext.memberEventAllowed", "eventauth.go:allowerContext.newEventAllower", "eventauth.go:allowerContext.newMembershipAllower", "eventauth.go:allowerContext.powerLevelsEventAllowed", "eventauth.go:allowerContext.redactEventAllowed", "eventauth.go:allowerContext.resetCreate", "eventauth.go:allowerContext.update", "eventauth.go:allowerContext.userPowerLevel", "eventauth.go:eventAllower.commonChecks", "eventauth.go:membershipAllower.membershipAllowed", "eventauth.go:membershipAllower.membershipAllowedFromThirdPartyInvite", "eventauth.go:membershipAllower.membershipAllowedOther", "eventauth.go:membershipAllower.membershipAllowedSelf", "eventauth.go:membershipAllower.membershipAllowedSelfForRestrictedJoin", "eventauth.go:membershipAllower.membershipFailed", "stateresolution.go:stateResolver.resolveAndAddAuthBlocks", "stateresolution.go:stateResolver.resolveAuthBlock", "stateresolutionv2.go:stateResolverV2.authAndApplyEvents"]
 
 end VPins.C09
